@@ -356,6 +356,28 @@ def report_raw_access(coh, rule_prefix):
                 ctx.violated(rule_prefix + "/VC2", g, what,
                              "`%s` are positions in the array's own flat data, but %s may still be a lazy view whose raw "
                              "buffer is the parent's" % (ast.unparse(v.elts[0]), selfp), node=n.ast, engine="E2")
+    # VC2': in __getitem__ the (index, None) results are applied to the raw buffer, not to the materialised data
+    gi = ctx.program.funcs.get("raggedarray.indexablearray.IndexableArray.__getitem__")
+    if gi is not None and gi.qual in coh.results:
+        from .guards import facts_at
+        res = coh.results[gi.qual]
+        fa = res["fa"]
+        for r in fa.cfg.returns():
+            facts = facts_at(fa, r)
+            none_shape = any(t.k == "cmp" and t.a[0] in ("is", "==") and t.a[2].k == "const" and t.a[2].a[0] is None and t.a[1].k == "item" and t.a[1].a[1] == 1 and truth
+                             or t.k == "cmp" and t.a[0] in ("is not", "!=") and t.a[2].k == "const" and t.a[2].a[0] is None and t.a[1].k == "item" and t.a[1].a[1] == 1 and not truth
+                             for t, truth, _ in facts)
+            if not none_shape:
+                continue
+            tm = fa.term(r.ast.value, r)
+            what = "indices computed against the raw buffer (before materialisation) are applied to the raw buffer"
+            if tm.k == "call" and tm.a[0].k == "attr" and tm.a[0].a[1] == "_get_data_range":
+                ctx.holds(rule_prefix + "/VC2", gi, what, node=r.ast, engine="E2")
+            elif tm.k == "sub" and tm.a[0].k == "call" and tm.a[0].a[0].k == "attr" and tm.a[0].a[0].a[1] == "ravel":
+                ctx.violated(rule_prefix + "/VC2", gi, what, "`%s`: the index was resolved while the array could still be a lazy view (positions in the parent's buffer) but is "
+                             "applied after ravel() moved the selection into its own buffer" % (tm,), node=r.ast, engine="E2")
+            else:
+                ctx.unknown(rule_prefix + "/VC2", gi, what, node=r.ast, engine="E2")
     # VC4
     for q, res in coh.results.items():
         f = res["fa"].func
